@@ -70,12 +70,26 @@ def _mu():
 class LsqSpy:
     """wraps numpy.linalg.lstsq for the duration of one call of the code under test"""
 
+    def __init__(self, inject=None):
+        # inject: None | 'raise' (LinAlgError, as when the SVD does not converge) | 'nan' (non-finite
+        # coefficients): the two failure modes of the external call that the code handles by falling
+        # back to the centre of mass
+        self.inject = inject
+
     def __enter__(self):
         self.calls = []
         self.orig = np.linalg.lstsq
         spy = self
 
         def lstsq(a, b, rcond=None):
+            if spy.inject == 'raise':
+                spy.calls.append((np.array(a), np.array(b), None))
+                raise np.linalg.LinAlgError('SVD did not converge (injected)')
+            if spy.inject == 'nan':
+                res = spy.orig(a, b, rcond=rcond)
+                bad = np.full_like(np.asarray(res[0], dtype=float), np.nan)
+                spy.calls.append((np.array(a), np.array(b), bad))
+                return (bad,) + tuple(res[1:])
             try:
                 res = spy.orig(a, b, rcond=rcond)
             except np.linalg.LinAlgError:
@@ -143,11 +157,11 @@ def check_lsq_contract(ctx, case, spy):
 # ---------------------------------------------------------------------------
 # _find_peak
 # ---------------------------------------------------------------------------
-def impl_find_peak(data, box, mask):
+def impl_find_peak(data, box, mask, inject=None):
     mu = _mu()
     arr = np.array(data, dtype=float)
     m = None if mask is None else np.array(mask, dtype=bool)
-    with LsqSpy() as spy:
+    with LsqSpy(inject) as spy:
         try:
             coord, status, sl = mu._find_peak(arr.copy(), peak_fit_box=box, mask=None if m is None else m.copy())
         except ValueError as e:
@@ -294,7 +308,12 @@ def run_peak_case(ctx, kind, data, box, mask, vertex, lines, pending, count=True
     case = {'op': 'findpeak', 'kind': kind, 'data': data, 'box': box, 'mask': mask}
     if vertex is not None:
         case['vertex'] = list(vertex)
-    res, spy = impl_find_peak(data, box, mask)
+    inject = None
+    if kind != 'corpus' and vertex is None and ctx.rng.random() < 0.04:
+        # the external least-squares call fails: the code must fall back to the centre of mass
+        inject = ctx.rng.choice(['raise', 'nan'])
+        case['lstsq'] = inject
+    res, spy = impl_find_peak(data, box, mask, inject)
     nontrivial = any(data[j][i] >= 1 and (mask is None or mask[j][i]) for j in range(ny) for i in range(nx))
     if count:
         ctx.case(case, nontrivial=nontrivial,
